@@ -205,7 +205,7 @@ func H_C10_copy_on_configure() {
 //symgo:redirect (*github.com/tsawler/tabula/reader.Reader).GetPage vStubGetPage
 //symgo:redirect (*github.com/tsawler/tabula/reader.Reader).ExtractTextFragments vStubFragments
 //symgo:redirect (*github.com/tsawler/tabula/reader.Reader).Close vStubClose
-//symgo:desc 4-page document (reader cut: page count, pages, fragments and Close are stubs); 1..2 selected pages, symbolic in [1,4]: Document() returns one model page per selected page, in ascending order, whose Number is the source page number; the reader, supplied by the caller as through tabula.FromReader, is not closed by the terminal operation
+//symgo:desc 4-page document (reader cut: page count, pages, fragments and Close are stubs); 1..2 selected pages, symbolic in [1,4]: Document() returns one model page per selected page, in ascending order, whose Number is the source page number and which Document.GetPage(number) returns; the reader, supplied by the caller as through tabula.FromReader, is not closed by the terminal operation
 func H_C10_document_page_numbers() {
 	vPageCount = 4
 	vCloseCalls, vCloseErr = 0, false
@@ -231,6 +231,7 @@ func H_C10_document_page_numbers() {
 			want = []int{lo, hi}[i]
 		}
 		vAssert("page-number-is-source-page", p.Number == want)
+		vAssert("lookup-by-page-number-finds-that-page", doc.GetPage(want) == p)
 	}
 	vAssert("caller-supplied-reader-is-not-closed", vCloseCalls == 0)
 	vReach("end")
